@@ -9,6 +9,10 @@ def h_shape(**kw):
     return T.h_shape(**kw)
 
 
+def h_sized(**kw):
+    return T.h_sized(**kw)
+
+
 def h_shape3(**kw):
     return T.h_shape3(**kw)
 
@@ -59,6 +63,13 @@ def build(tier: str, props=PROPS, pid="C06") -> CheckSpec:
         for c1n in ("none", "table2x2", "div", "section", "ul"):
             cubes.append(Cube(f"shape3 {c1n}(none(L1) L2) L3", h_shape3, {"l1": int, "l2": int, "l3": int},
                               {"c1": T.cidx(c1n), "c2": 0, "props": props}, timeout=tmo, per_path_timeout=30, group="shape3"))
+    # size heuristics: a first leaf just above each size threshold harvested from the cleaner's source
+    sized_pairs = [(c, "none") for c in ("none", "div", "table1", "table2x2", "late-table1", "late-table2x2", "ul", "section", "sup", "ref", "caption", "center-in-cell", "dl", "blockquote")]
+    sized_pairs += [("table1", "table1"), ("late-table1", "table1"), ("div", "table1"), ("table2x2", "div")]
+    l2set = tuple(T.lidx(n) for n in (("word", "image", "table", "gallery") if q else ("word", "image", "table", "list", "gallery", "ref", "heading", "big-nested-table")))
+    for c1n, c2n in sized_pairs:
+        cubes.append(Cube(f"sized {c1n}({c2n}(SIZED) L2)", h_sized, {"sidx": int, "l2": int},
+                          {"c1": T.cidx(c1n), "c2": T.cidx(c2n), "props": props, "l2set": l2set}, timeout=tmo, per_path_timeout=60, group="sized"))
     sensitive, methods = T.attr_sensitive_passes()
     shapes = list(range(len(T.ATTR_SHAPES))) if not q else list(T.QUICK_ATTR_SHAPES)
     for sh in shapes:
@@ -78,7 +89,9 @@ def build(tier: str, props=PROPS, pid="C06") -> CheckSpec:
         functions=[treecleaner.TreeCleaner, advtree.build_advanced_tree, advtree.AdvancedNode, advtree._validate_parser_tree, advtree._validate_parents],
         bounds={"documents": "C1( C2( L1 ) L2 )" + ("" if q else " and C1(L1 L2) + blank line + L3"),
                 "containers": [c[0] for c in T.CONTAINERS], "leaves": [l[0] for l in T.LEAVES],
-                "container pairs": "every C1 with C2=none plus 12 selected pairs" if q else "all pairs",
+                "container pairs": "every C1 with C2=none plus 14 selected pairs" if q else "all pairs",
+                "sized leaves": {"thresholds harvested from the source": T.harvest_thresholds(), "leaves": [n for n, _ in T.sized_leaves()],
+                                 "documents": ["%s(%s(SIZED) L2)" % p_ for p_ in sized_pairs], "L2": [T.LEAVES[i][0] for i in l2set]},
                 "attribute documents": [list(T.ATTR_SHAPES[i]) for i in shapes],
                 "attribute-sensitive passes (from the current source)": [methods[k] for k in sensitive],
                 "symbolic attributes": "id (<= 14 chars), class (<= 14 chars), one style declaration: key among those the pass reads (harvested from its source; all of %r if none), value symbolic (<= 8 chars); height from %r by a symbolic index, width fixed" % (T.STYLE_KEYS, T.LENGTHS),
